@@ -922,7 +922,7 @@ def _malformed(rng):
 def gen_cases(tier, rng):
     cases = []
     cases += _exhaustive(rng, tier)
-    for _ in range(260 if tier == "quick" else 3200):
+    for _ in range(200 if tier == "quick" else 3200):
         cases.append(_random_case(rng))
     cases += _malformed(rng)
     return cases
